@@ -42,11 +42,12 @@ type Rep struct {
 	Trusted  []string
 	Assume   []string
 	Explain  string
+	Extra    map[string]any // additional coverage keys (e.g. exhaustive, programs)
 	keys     map[string]int
 }
 
 func New(prop, tier string) *Rep {
-	return &Rep{Prop: prop, Tier: tier, Start: time.Now(), Analysed: map[string]int{}, keys: map[string]int{}}
+	return &Rep{Prop: prop, Tier: tier, Start: time.Now(), Analysed: map[string]int{}, keys: map[string]int{}, Extra: map[string]any{}}
 }
 
 // Key builds a stable obligation key and numbers repeated constructs in encounter order.
@@ -204,6 +205,9 @@ func (r *Rep) Finish(verifDir string, known []Known, seed int64) int {
 		"checker_cmd":     fmt.Sprintf("/verif/bin/wvsa check -p %s -tier %s", r.Prop, r.Tier),
 		"notes":           r.Notes,
 		"all_obligations": r.Obs,
+	}
+	for k, v := range r.Extra {
+		cov[k] = v
 	}
 	ev := map[string]any{
 		"property_id": r.Prop,
